@@ -151,6 +151,32 @@ def run_item(item):
                                 expr = s[i] + dt * r[0]
                                 if not abs(out[i] - expr) <= max(2 * L.tol(r) * abs(dt), 1e-12 * max(abs(s[i]), abs(dt) * r[2])):
                                     bad.setdefault((alias, "wrong-vs-reference"), (dict(pt, dt=dt), f"{st}: got {out[i]!r}, reference {expr!r}"))
+                    # other input representations of the same numbers: integer arrays, python lists (whole-number points only)
+                    if all(float(v).is_integer() for v in s + p) and backend != "c":
+                        import numpy as _np
+                        reps = {"int-array": (_np.array(s, dtype=_np.int64), _np.array(p, dtype=_np.int64)), "list": ([float(v) for v in s], [float(v) for v in p]),
+                                "int-list": ([int(v) for v in s], [int(v) for v in p])}
+                        if backend == "jax":
+                            import jax.numpy as jnp
+                            reps = {"int-array": (jnp.array(_np.array(s, dtype=_np.int64)), jnp.array(_np.array(p, dtype=_np.int64))), "float32": (jnp.array(s, dtype=jnp.float32), jnp.array(p, dtype=jnp.float32))}
+                        for dt in (0.125, 0.0):
+                            try:
+                                base_out = mod.call("explicit_euler", pt["t"], s, p, dt=dt)[0]
+                            except Exception:
+                                continue
+                            for rn, (sr, pr) in reps.items():
+                                if backend == "numpy" and rn in ("list", "int-list"):
+                                    continue  # documented inputs are arrays
+                                try:
+                                    out2 = mod.ns["explicit_euler"](sr, pt["t"], dt, pr)
+                                    out2 = [float(v) for v in _np.asarray(out2).ravel()]
+                                except Exception as ex:
+                                    bad.setdefault(("explicit_euler", f"raises-for-{rn}-input"), (dict(pt, dt=dt), repr(ex)[:160]))
+                                    continue
+                                res["evaluations"] += 1
+                                tolr = 1e-6 if rn == "float32" else 1e-12
+                                if len(out2) != len(base_out) or any(not (a == b or abs(a - b) <= tolr * max(1.0, abs(a))) for a, b in zip(base_out, out2) if a == a):
+                                    bad.setdefault(("explicit_euler", f"result-depends-on-{rn}-input"), (dict(pt, dt=dt), f"float64 input gives {base_out}, {rn} input gives {out2}"))
                     res["traces"] += 1
                 for (fn, cls), (pt, msg) in sorted(bad.items()):
                     fail(f"{ID}|{backend}|{fn}|{cls}", f"remove_unused={ru}: {msg} at {pt}", {"backend": backend, "remove_unused": ru, "point": pt})
